@@ -157,7 +157,10 @@ func run(sc *scenario) (coq string, tags []string, err error) {
 			ok, exc := buckets.TakeTokens(bks, int(o.N))
 			e := nameID(exc)
 			o.Obs.OK, o.Obs.Exc = &ok, &e
-			nref, explained, xok, xexc := ref.follow(at, o.Keys, o.N, ok, e)
+			nref, explained, early, xok, xexc := ref.follow(at, o.Keys, o.N, ok, e)
+			if early {
+				tagset["bridge:request-1ns-short-admitted-by-rounding"] = true
+			}
 			if !explained {
 				xdiff++
 				o.Obs.ExactDiff = fmt.Sprintf("exact model: ok=%v exc=%d", xok, xexc)
@@ -193,7 +196,10 @@ func run(sc *scenario) (coq string, tags []string, err error) {
 			for _, r := range results {
 				o.Obs.OKs = append(o.Obs.OKs, r.ok)
 				o.Obs.Excs = append(o.Obs.Excs, r.exc)
-				nref, explained, xok, xexc := ref.follow(at, o.Keys, o.N, r.ok, r.exc)
+				nref, explained, early, xok, xexc := ref.follow(at, o.Keys, o.N, r.ok, r.exc)
+				if early {
+					tagset["bridge:request-1ns-short-admitted-by-rounding"] = true
+				}
 				if !explained {
 					xdiff++
 					o.Obs.ExactDiff = fmt.Sprintf("exact model: ok=%v exc=%d", xok, xexc)
@@ -245,18 +251,22 @@ func run(sc *scenario) (coq string, tags []string, err error) {
 	return coq, tags, nil
 }
 
-// the first observable that differs from exact arithmetic is attributed to the configuration of the
-// buckets involved: inside the stated domain (refill interval >= 1 ns, period < 2^53 ns) float
-// rounding stays below one nanosecond of credit; beyond it the code mis-decides (finding F18)
+// an observable that no behaviour of the exact model explains is attributed to the configuration
+// of the buckets involved: up to a period of 2^53 ns float rounding stays below one nanosecond of
+// credit (the measured domain of the bridge); up to 2^62 ns (the domain of the theorems) it can
+// move a decision by a few ns without touching the statement; beyond, the code mis-decides (F18)
 func diffTag(ref *xsys, keys []keySpec) string {
-	extreme := false
+	var worst int64
 	for _, k := range keys {
-		if b, ok := ref.buckets[k]; ok && b.st.Period >= periodDomain {
-			extreme = true
+		if b, ok := ref.buckets[k]; ok && b.st.Period > worst {
+			worst = b.st.Period
 		}
 	}
-	if extreme {
+	switch {
+	case worst > f18Period:
 		return "F18:extreme-period-misdecision"
+	case worst >= periodDomain:
+		return "bridge:observed-outside-exact-model-period>=2^53ns"
 	}
 	return "bridge:observed-outside-exact-model-inside-domain"
 }
@@ -268,4 +278,7 @@ func absDiff(a, b uint32) uint32 {
 	return b - a
 }
 
-const periodDomain = int64(1) << 53
+const (
+	periodDomain = int64(1) << 53
+	f18Period    = int64(1) << 62
+)
